@@ -88,9 +88,10 @@ pub fn plan_for(prop: &str, tier: Tier, seed: u64, verif_dir: &str) -> Option<Pl
 				job("lnsim", "offchain", n(2500, 40000)),
 				job("lnsim", "forward", n(400, 10000)),
 				job("lnsim", "crash", n(400, 10000)),
+				job("lnsim", "tamper", n(400, 10000)),
 			],
 			level: "exploration".into(),
-			rule: "profiles `offchain`, `forward`, `crash`: every call that reaches the signer seam (sign_counterparty_commitment, validate_holder_commitment, release_commitment_secret, sign_holder_commitment, HTLC signing) and every transaction handed to the broadcaster is recorded and fed to a per-channel revocation automaton written from BOLT 2. Oracles: C05-1 a secret is released only after a newer holder commitment was validated, C05-2 a revoked holder commitment (or HTLC tx on it) is never signed, re-validated or broadcast, nor revoked after broadcast, C05-3 at most one unrevoked counterparty commitment is outstanding when signing and numbers advance by one, C05-4 revoke_and_ack carries exactly the released secret and the right next point; LDK's own TestChannelSigner policy assertions are treated as oracle failures. Crashes restore signer state from the durable monitors/manager only. One evaluation = one seeded run (config, schedule and faults all drawn from the run seed; replay executes the recorded action trace). non-trivial = the run executed at least one payment/HTLC to a terminal state or fired at least one fault; distinct = distinct FNV hash of the executed (action kind, actor) sequence.".into(),
+			rule: "profiles `offchain`, `forward`, `crash`: every call that reaches the signer seam (sign_counterparty_commitment, validate_holder_commitment, release_commitment_secret, sign_holder_commitment, HTLC signing) and every transaction handed to the broadcaster is recorded and fed to a per-channel revocation automaton written from BOLT 2. Oracles: C05-1 a secret is released only after a newer holder commitment was validated, C05-2 a revoked holder commitment (or HTLC tx on it) is never signed, re-validated or broadcast, nor revoked after broadcast, C05-3 at most one unrevoked counterparty commitment is outstanding when signing and numbers advance by one, C05-4 revoke_and_ack carries exactly the released secret and the right next point; LDK's own TestChannelSigner policy assertions are treated as oracle failures. Crashes restore signer state from the durable monitors/manager only. Profile `tamper` adds a Byzantine peer: a revoke_and_ack whose secret was altered in flight (bit flip, or an unrelated valid scalar) or a commitment_signed whose signature was altered is delivered; C05-5 the receiver must fail the channel instead of advancing (it never stores a secret that does not match the announced commitment point), after which the run continues on chain with all other oracles armed. One evaluation = one seeded run (config, schedule and faults all drawn from the run seed; replay executes the recorded action trace). non-trivial = the run executed at least one payment/HTLC to a terminal state or fired at least one fault; distinct = distinct FNV hash of the executed (action kind, actor) sequence.".into(),
 			assumptions: t_assumptions.clone(),
 			probes: vec![],
 			exhaustive: false,
